@@ -519,12 +519,27 @@ func schedPart() {
 		run.Set("concurrent_first_use", "not run (C12_SCHED_BIN not set: use bin/check)")
 		return
 	}
-	cmd := exec.Command(bin, run.Tier)
-	cmd.Env = append(os.Environ(), "GOMAXPROCS=2")
-	cmd.Stderr = os.Stderr
-	out, err := cmd.Output()
-	if err != nil {
-		run.Fatal("scheduler part of C12 failed: %v", err)
+	const nw = 16
+	outs := make([][]byte, nw)
+	errs := make([]error, nw)
+	var wg sync.WaitGroup
+	for k := 0; k < nw; k++ {
+		wg.Add(1)
+		go func(k int) {
+			defer wg.Done()
+			cmd := exec.Command(bin, run.Tier, fmt.Sprint(k), fmt.Sprint(nw))
+			cmd.Env = append(os.Environ(), "GOMAXPROCS=2")
+			cmd.Stderr = os.Stderr
+			outs[k], errs[k] = cmd.Output()
+		}(k)
+	}
+	wg.Wait()
+	var out []byte
+	for k := range outs {
+		if errs[k] != nil {
+			run.Fatal("scheduler part of C12 failed (worker %d): %v", k, errs[k])
+		}
+		out = append(out, outs[k]...)
 	}
 	var progs, execs, points, replayed int64
 	sc := bufio.NewScanner(bytes.NewReader(out))
@@ -563,7 +578,7 @@ func schedPart() {
 			_ = json.Unmarshal(full.Violations[i], &rp)
 			run.Violation(v.Key, r.Desc+": "+v.What, rp)
 		}
-		if progs == 3 {
+		if r.Desc == "BLS generated: [PublicKey().Encode()] || [BLSGeneratePOP(sk)]" {
 			run.Sample(map[string]any{"kind": "concurrent first use", "program": r.Desc, "schedules": r.Execs, "scheduling_points": r.Points, "preemption_bound": r.Bound})
 		}
 	}
